@@ -17,7 +17,7 @@ pub fn def() -> PropDef {
         generate,
         check,
         nontrivial,
-        rule: "programs of 3 actors (target with timers and optionally a child or a registry entry; a bystander that calls the target from inside its own handler; clients calling, sending, pinging, awaiting, joining) generated per block of 48 run indices; a fault-free run of the program counts the target's callbacks K and task polls J; the block then enumerates single faults by position: started returns Err, panic at entry of the k-th callback (k in 0..K, incl. started and stopped), task cancellation instead of the j-th poll (j in 1..J), timeout with fail_on_timeout, cancellation at a global step; remaining indices of the block repeat the list under other schedule seeds; the thorough tier adds a second fault; non-trivial = the fault fired while a client operation on the target was pending; distinct = distinct order of client-op and callback events",
+        rule: "programs of 3 actors (target with timers and optionally a child or a registry entry; a bystander that calls the target from inside its own handler; clients calling, sending, pinging, awaiting, joining) generated per block of 48 run indices; a fault-free run of the program counts the target's callbacks K and task polls J; the block then enumerates single faults by position: started returns Err (on the first start and, where the program restarts the target, on the restart), panic at entry of the k-th callback (k in 0..K, incl. started and stopped), task cancellation instead of the j-th poll (j in 1..J), timeout with fail_on_timeout, cancellation at a global step; remaining indices of the block repeat the list under other schedule seeds; the thorough tier adds a second fault; non-trivial = the fault fired while a client operation on the target was pending; distinct = distinct order of client-op and callback events",
         needed_probes: &["c06_fault_fired", "call_pending_at_death", "c06_bystander_checked", "c06_child_released", "c06_registry_after_failure", "c06_timer_owner_died", "c06_cancel_fired", "c06_panic_fired", "c06_start_err_fired", "c06_timeout_fail_fired"],
         quick_runs: 96_000,
         thorough_runs: 2_400_000,
@@ -78,6 +78,16 @@ fn base_program(g: &mut G) -> (Scenario, bool) {
     }
     if with_child && g.chance(1, 2) {
         c0.push(Op::Send { h: 8, id: g.id(), work: vec![Work::Broadcast { key: ChildKey::Msg, id: g.id() }] });
+    }
+    // a third of the programs restart the target in mid-life (a fault can then hit the restart)
+    let restarts = g.chance(1, 3);
+    if restarts {
+        if g.chance(1, 2) {
+            c0.push(Op::Restart { h: 8 });
+        } else {
+            c0.push(Op::Send { h: 8, id: g.id(), work: vec![Work::CtxRestart] });
+        }
+        c0.push(Op::Call { h: 8, id: g.id(), work: vec![] });
     }
     c0.push(Op::Sleep(g.range(5, 40)));
     c0.push(Op::Call { h: 8, id: g.id(), work: vec![] });
@@ -148,6 +158,9 @@ pub fn generate(g: &mut G, index: u64) -> Scenario {
     };
     let _ = crate::log::take_probes();
     let mut faults: Vec<FaultKind> = vec![FaultKind::StartErr { nth: 0 }];
+    if sc.clients[0].ops.iter().any(|o| matches!(o, Op::Restart { .. }) || matches!(o, Op::Send { work, .. } if work.contains(&Work::CtxRestart))) {
+        faults.push(FaultKind::StartErr { nth: 1 });
+    }
     for i in 0..k.min(14) {
         faults.push(FaultKind::PanicAtCb { k: i });
     }
